@@ -130,6 +130,9 @@ class HTMLScraper(HTMLReader, BaseHTMLScraper):
 
         scrape_result = ScrapeResult(link_contexts, encoding)
         scrape_result['base_url'] = base_url
+        # For the other scrapers that may have taken the same document
+        scrape_result['robots_no_follow'] = bool(
+            result_meta_info.get('robots_no_follow'))
         return scrape_result
 
     def _process_elements(self, elements, response, base_url, link_contexts,
